@@ -260,6 +260,6 @@ func (u *Unit) restoreOwned(st *State, saved []savedAlloc) {
 		}
 	}
 	if len(saved) > 0 {
-		u.note("local allocations whose address has not been handed out on the path keep their content across calls with unknown effect")
+		u.note("local allocations whose address has not been handed out on the path, and maps made and used only by the function itself, keep their content across calls with unknown effect")
 	}
 }
